@@ -40,7 +40,7 @@ QUICK_EXCLUDE = {
     "C01": {"rr_slice_ord_other", "sc_step_3600_1", "sc_step_1201_0d"},
     "C02": {"rr_slice_unord_other", "sc_step_3600_1", "sc_step_1201_0d", "rr_msg_unord_m1"},
     "C03": {"rr_slice_ord_i1", "rr_slice_unord_i0_done", "ur_slice_other", "ur_slice_oob", "ur_slice_i0"},
-    "C06": {"rr_slice_unord_other", "rr_slice_ord_other", "ur_slice_other", "rr_slice_unord_i0_done", "rr_slice_ord_i0_done", "ur_slice_i0_done",
+    "C06": {"rr_slice_unord_other", "rr_slice_ord_other", "rr_slice_unord_i0_done", "rr_slice_ord_i0_done", "ur_slice_i0_done",
             "ur_slice_i0", "rr_msg_unord_m1", "rr_msg_ord_m1", "rr_slice_ord_oob"},
     "C09": {"rr_slice_ord_i1", "rr_slice_ord_other", "ur_slice_other", "rr_slice_unord_i0_done", "ur_slice_i1", "ur_slice_oob", "ur_slice_i0",
             "rr_msg_unord_m1", "rr_recv_ord_m1"},
@@ -396,8 +396,8 @@ L("ns_update_pending", props=["C18"], timeout=900, mem_gb=14, functions="Netcode
 L("ns_frame_unknown", props=["C07", "C19", "C05"], timeout=900, mem_gb=14, functions="NetcodeServer::process_packet_internal (new-address branch)",
   claim="a datagram shorter than a connection request from an address that is neither connected nor pending is an error: no reply, no state change, whatever it claims to be",
   bound=_NSB % "10" + "; all datagrams of 0..=40 B", **NSC)
-for nm in ("ns_req_guard_00_e0", "ns_req_guard_10_e1", "ns_req_guard_11_e0", "ns_req_guard_11_e1", "ns_req_guard_10_e0_pend"):
-    L(nm, props=["C05", "C19", "C17", "C10", "C18"], tier="thorough", timeout=2400, mem_gb=20,
+for nm in ("ns_req_guard_00_e0", "ns_req_guard_10_e1", "ns_req_guard_11_e1", "ns_req_guard_10_e0_pend"):  # (11_e0 exists in the harness file; 14-16 min and 16-20 GB each)
+    L(nm, props=["C05", "C19", "C17", "C10", "C18"], tier="thorough", timeout=2400, mem_gb=24, heavy=True,
       functions="NetcodeServer::{process_packet_internal, handle_connection_request, find_or_add_connect_token_entry}",
       claim="a connection request (all fields attacker chosen) is answered only if version / protocol id match, the clock is before the expiry it announces, its private token is authentic under "
             "the server's key for exactly this protocol id / expiry / xnonce / ciphertext, a listed host is this server (secure mode), neither id nor address is connected and the token is not "
@@ -405,8 +405,8 @@ for nm in ("ns_req_guard_00_e0", "ns_req_guard_10_e1", "ns_req_guard_11_e0", "ns
             "slot is free (fresh challenge sequence, seals this token's id + user data under the challenge key, pending session = the token's id / keys / timeout / user data, an existing pending "
             "session is kept), denied otherwise (no pending session left); no reply => no counter, pending or token-table change; unauthentic token => token table untouched; a valid request is answered",
       bound=_NSB % nm.split("_")[3] + "; token table with %s entry; secure flag and max_clients in {1,2} symbolic" % ("1" if "e1" in nm else "0"), **NSC)
-for nm in ("ns_resp_guard_00", "ns_resp_guard_10", "ns_resp_guard_01", "ns_resp_guard_11"):
-    L(nm, props=["C05", "C10", "C17", "C19", "C18"], tier="thorough", timeout=2400, mem_gb=20,
+for nm in ("ns_resp_guard_00", "ns_resp_guard_10", "ns_resp_guard_11"):  # (01 exists in the harness file)
+    L(nm, props=["C05", "C10", "C17", "C19", "C18"], tier="thorough", timeout=2400, mem_gb=24, heavy=True,
       functions="NetcodeServer::process_packet_internal (pending branch)",
       claim="one datagram from a pending address (authentic or not, echoing ANY challenge): the client connects only by an authentic response of THIS session that echoes a challenge this server "
             "sealed for THIS session's id and user data, at the pending address, under the pending id, into a free slot, with no duplicate id; the first keep-alive is sealed under the session's "
